@@ -41,7 +41,7 @@ ASSUMPTIONS = ["CLVM evaluation is an oracle: every (program, environment) -> (c
 TRUSTED = ["hand-written mirrors coq/Chain/Generator.v, Rom.v tied to run_block_generator.rs / the ROM by this stream",
            "harness re-performs the interpreter calls of a case to record the oracle table (clvmr run_program is not hookable)"]
 
-PENDING = {"F-C07-1": "simple-generator-with-refs", "F-C07-2": "interned-storage-cost"}
+PENDING = {"F-C07-2": "interned-storage-cost"}
 
 
 def listed_ids():
@@ -49,19 +49,16 @@ def listed_ids():
 
 
 def classify_known(f, known):
-    """witness classes: F-C07-1 = SIMPLE_GENERATOR with a non-empty reference list, legacy accepts and native rejects
-    with TooManyGeneratorRefs; F-C07-2 = INTERNED_GENERATOR, native total (or cost verdict) exceeds legacy's because of
-    the interned storage cost.  Anything else is reported."""
+    """the one known witness class: F-C07-2 = INTERNED_GENERATOR set, and the native total exceeds the legacy total
+    (or, at a limit in between, native fails on cost where legacy accepts) because only the native path charges the
+    interned storage cost.  Anything else is reported.  (F-C07-1, SIMPLE_GENERATOR with block references, was fixed in
+    /repo by e4597dd2 and is checked strictly.)"""
     ids = {k["id"] for k in known}
     if f["stream"] != "gen.oracle07":
         return None
     t = f["case"].split(" ")
     flags = int(t[1])
-    refs = t[4]
     out = f["impl"]
-    if "F-C07-1" in ids and flags & F["SIMPLE_GENERATOR"] and refs != "-" and \
-            out == "FAIL legacy-accepts-native-rejects(TooManyGeneratorRefs)":
-        return "F-C07-1"
     if "F-C07-2" in ids and flags & F["INTERNED_GENERATOR"] and \
             (out.startswith("FAIL native-costs-more") or out == "FAIL legacy-accepts-native-rejects(CostExceeded)"):
         return "F-C07-2"
@@ -92,7 +89,7 @@ def run_both(rep, name, cases, env, have_model):
         lv = "OK" if f[0].startswith("OK") else f[0]
         nv = "OK" if f[1].startswith("OK") else f[1]
         kinds[(lv, nv, f[2])] += 1
-        tagkey = tuple(t for t in c["tags"] if t[0] in ("shape", "proc", "bytes", "file", "limit", "backref"))
+        tagkey = tuple(t for t in c["tags"] if t[0] in ("shape", "proc", "bytes", "file", "limit", "backref", "simple-refs"))
         rep.nontrivial.add((name, c["kind"], tagkey, flag_class(c["flags"]), lv.split(" ")[-1], nv.split(" ")[-1], f[2]))
         if have_model:
             rep.evaluations += 1
@@ -114,8 +111,6 @@ def oracle(rep, cases, listed):
     lines = []
     for c in cases:
         strict = True
-        if c["flags"] & F["SIMPLE_GENERATOR"] and c["refs"] and "F-C07-1" not in listed:
-            strict = False
         if c["flags"] & F["INTERNED_GENERATOR"] and "F-C07-2" not in listed:
             strict = False
         lines.append("gen.oracle07 %d %d %s %s%s" % (c["flags"], c["max_cost"], G.hexo(c["program"]), G.refs_tok(c["refs"]),
@@ -164,6 +159,13 @@ def run(ctx):
     for k in range(env.N_SHAPES):
         for _ in range(2 if tier == "quick" else 40):
             cases.append(env.shape_case(k))
+    # SIMPLE_GENERATOR with block references (rejected by both paths since fix e4597dd2), on otherwise valid generators
+    for _ in range(6 if tier == "quick" else 120):
+        c = env.case(want_valid=True)
+        c["flags"] |= F["SIMPLE_GENERATOR"]
+        c["refs"] = [rng.bytes(rng.below(40))] + ([rng.bytes(3)] if rng.chance(1, 3) else [])
+        c["tags"] = c["tags"] + [("simple-refs", str(len(c["refs"])))]
+        cases.append(c)
     # corpus
     impl_only = []
     for name, prog, refs, big in G.file_cases(tier, env):
@@ -193,7 +195,7 @@ def run(ctx):
             d["kind"] = c["kind"] + "+backref"
             d["tags"] = c["tags"] + [("backref", "compressed")]
             cases.append(d)
-    # the default stream keeps the two pending divergence classes out of the strict oracle (see notes/gen.md)
+    # while F-C07-2 is not listed in KNOWN_FINDINGS.jsonl its class runs the oracle in lenient mode (see notes/gen.md)
     impl, model = run_both(rep, "gen.both", cases, env, ctx["have_model"])
 
     # cost limits around both totals
@@ -248,12 +250,18 @@ def run(ctx):
     if not i[0].startswith("1 "):
         rep.add_failure("gen.romconst", ls[0], i[0][:40], "1 ...", "the deserializer inside the ROM differs from CHIALISP_DESERIALISATION")
 
-    # pending / known divergence classes: fixed witnesses, strict oracle
+    # fixed regression inputs (strict oracle): the former witness of F-C07-1 (fixed by e4597dd2) must pass;
+    # the witness of the known class F-C07-2 is a failure that classify_known recognises only if the id is listed
     from clvm import ser, to_list, canon
     spend = to_list([b"\x11" * 32, (b"\x01", b""), canon(10), b""])
     g = ser((b"\x01", (to_list([spend]), b"")))
-    wit = {"F-C07-1": "gen.oracle07 %d %d %s 00" % (F["SIMPLE_GENERATOR"] | F["DONT_VALIDATE_SIGNATURE"], G.BLOCK, g.hex()),
-           "F-C07-2": "gen.oracle07 %d %d %s -" % (F["INTERNED_GENERATOR"] | F["DONT_VALIDATE_SIGNATURE"], G.BLOCK, g.hex())}
+    line = "gen.oracle07 %d %d %s 00" % (F["SIMPLE_GENERATOR"] | F["DONT_VALIDATE_SIGNATURE"], G.BLOCK, g.hex())
+    o = G.vh([line], shards=1)[0]
+    rep.streams["regression_simple_generator_with_refs"] = {"case": line, "implementation": o}
+    if not o.startswith("OK"):
+        rep.add_failure("gen.oracle07", line, o, "OK both-reject", "SIMPLE_GENERATOR with block references: the two paths disagree "
+                                                                   "(defect F-C07-1, fixed by e4597dd2, is back)")
+    wit = {"F-C07-2": "gen.oracle07 %d %d %s -" % (F["INTERNED_GENERATOR"] | F["DONT_VALIDATE_SIGNATURE"], G.BLOCK, g.hex())}
     pend = {}
     for fid, line in wit.items():
         o = G.vh([line], shards=1)[0]
